@@ -1343,6 +1343,10 @@ def c16_traces(res):
                 t.line(0, "JOIN " + ch + key)
                 t.line(0, "TOPIC %s :first life" % ch)
                 t.line(0, "MODE %s +im" % ch)
+                # the mask lists - for a configured channel the configured ones, whose entries have no 'set by' record - are shown
+                # to a member who asks (seeded C16-g)
+                for q in ("+b", "+e", "+I"):
+                    t.line(0, "MODE %s %s" % (ch, q))
                 t.line(0, "INVITE bob " + ch)
                 t.line(1, "JOIN " + ch + key)
                 t.line(0, "MODE %s +o bob" % ch)
@@ -1372,6 +1376,7 @@ def c16_traces(res):
                 t.line(2, "LIST")
                 t.line(2, "MODE " + ch)
                 t.line(2, "JOIN " + ch + key)
+
                 t.line(2, "MODE " + ch)
                 t.line(2, "TOPIC " + ch)
                 t.line(2, "NAMES " + ch)
@@ -3612,11 +3617,11 @@ def c12_pairs(res):
     for secret_flags in ("s", "sn", "si", "sm"):
         for ghost_mode in ("plain", "invisible", "invisible_registered"):
             for sharing in (False, True):
-                for topic in (None, "secret topic"):
+                for topic, oper_view in ((None, False), ("secret topic", False), ("secret topic", True)):
                     k += 1
-                    if res.tier == "quick" and not pick(res, k, 2):
+                    if res.tier == "quick" and not pick(res, k, 3):
                         continue
-                    def build(hidden_present, tid):
+                    def build(hidden_present, tid, oper_view=oper_view, topic=topic):
                         # the hidden user may be a configured one (it then carries +r, which WHOIS reports first: seeded C12-f)
                         cfg = Config(operators=[dict(name="admin", password="operpass")], users=[dict(name="ghostacct", nick="ghost", password=None, mask=None)])
                         t = Trace(tid, cfg)
@@ -3625,6 +3630,9 @@ def c12_pairs(res):
                         t.register(2, "outsider", "webchat")
                         t.register(3, "outsider2", "o2")
                         t.line(3, "MODE outsider2 +i")
+                        if oper_view:
+                            # the asking outsider is an IRC operator: operator status opens no secret channel (seeded C12-g)
+                            t.line(2, "OPER admin operpass")
                         t.line(0, "JOIN #pub")
                         t.line(1, "JOIN #pub")
                         t.line(2, "JOIN #pub")
@@ -3647,7 +3655,7 @@ def c12_pairs(res):
                             for cid in (2, 3):
                                 qs.append(len(t.events))
                                 t.line(cid, q)
-                        t.meta = {"flags": secret_flags, "ghost": ghost_mode, "sharing": sharing, "topic": topic, "hidden": hidden_present, "queries": qs}
+                        t.meta = {"flags": secret_flags, "ghost": ghost_mode, "sharing": sharing, "topic": topic, "hidden": hidden_present, "queries": qs, "oper_view": oper_view}
                         return t
                     pairs.append((build(True, "c12-%d-B" % k), build(False, "c12-%d-A" % k)))
     return pairs
@@ -3710,7 +3718,7 @@ def check_C12(res):
                                    "trace_file": tb.render()}, found=True)
     res.coverage.update({
         "evaluations": r["steps"], "distinct_nontrivial": compared,
-        "rule": "two-world runs ON THE IMPLEMENTATION: %d pairs of histories (secret channel flags {s,sn,si,sm} x hidden user {visible, +i, +i and configured (+r)} x a bystander shares the secret channel or not x topic) that differ only "
+        "rule": "two-world runs ON THE IMPLEMENTATION: %d pairs of histories (secret channel flags {s,sn,si,sm} x hidden user {visible, +i, +i and configured (+r)} x a bystander shares the secret channel or not x topic x the asking outsider is an IRC operator or not) that differ only "
                 "in the hidden part; in both worlds two outsiders (one itself +i, one with the same user name as the hidden user) ask %d query forms of LIST/NAMES/WHO/WHOIS (explicit names, comma lists, wildcard "
                 "masks over nick, source and real name, no argument) and try to speak into the channel; the canonicalised answers must be equal; plus %d seeded random histories compared impl vs model with "
                 "the view oracle; distinct_nontrivial = query answers compared between the two worlds" % (len(pairs), len(QUERIES) - 1, n),
